@@ -154,15 +154,18 @@ class ModbusSocketFramer(ModbusFramer):
                     else:
                         _logger.debug("Not a valid unit id - {}, "
                                       "ignoring!!".format(self._header['uid']))
-                        self.resetFrame()
+                        # skip this frame only, keep what follows it
+                        self.advanceFrame()
+                elif self._header['len'] < 2:
+                    # checkFrame skipped a header with an impossible length
+                    # field; look at what follows it
+                    continue
                 else:
-                    _logger.debug("Frame check failed, ignoring!!")
-                    self.resetFrame()
+                    # the frame is not complete yet: keep it and wait for
+                    # the rest to arrive
+                    break
             else:
-                if len(self._buffer):
-                    # Possible error ???
-                    if self._header['len'] < 2:
-                        self._process(callback, error=True)
+                # less than a full header so far: wait for more data
                 break
 
     def _process(self, callback, error=False):
